@@ -459,11 +459,93 @@ fn run_stream(id: &str, lines: &[String], out: &mut String) {
 #[cfg(not(feature = "frontend"))]
 fn run_stream(_id: &str, _lines: &[String], _out: &mut String) {}
 
+/// C19 with BOUNDED channels and real threads: producer, relay and receiver run concurrently, the relay starts
+/// polling late, every send may have to wait for the consumer.  Whatever the schedule, once the producer is done
+/// and both channels are drained the three node tables must be identical.
+#[cfg(feature = "frontend")]
+fn run_stream_threads(id: &str, rest: &[String], lines: &[String], out: &mut String) {
+    use adf_bdd::datatypes::BddNode;
+    use adf_bdd::obdd::Bdd;
+    use crossbeam_channel::bounded;
+    use std::sync::atomic::{AtomicBool, Ordering};
+    use std::sync::Arc;
+    let cap: usize = rest.first().and_then(|x| x.parse().ok()).unwrap_or(1);
+    let delay_us: u64 = rest.get(1).and_then(|x| x.parse().ok()).unwrap_or(2000);
+    let (s1, r1) = bounded::<BddNode>(cap);
+    let (s2, r2) = bounded::<BddNode>(cap);
+    let producer_done = Arc::new(AtomicBool::new(false));
+    let relay_done = Arc::new(AtomicBool::new(false));
+    let prog: Vec<String> = lines.to_vec();
+    let pd = producer_done.clone();
+    let producer = std::thread::spawn(move || {
+        let mut bdd = Bdd::with_sender(s1);
+        let mut regs: Vec<Term> = Vec::new();
+        for line in &prog {
+            let w: Vec<&str> = line.split_whitespace().collect();
+            if w.is_empty() {
+                continue;
+            }
+            let reg = |s: &str, regs: &Vec<Term>| regs[s.parse::<usize>().unwrap()];
+            match w[0] {
+                "var" => regs.push(bdd.variable(Var(w[1].parse().unwrap()))),
+                "not" => regs.push(bdd.not(reg(w[1], &regs))),
+                "and" => regs.push(bdd.and(reg(w[1], &regs), reg(w[2], &regs))),
+                "or" => regs.push(bdd.or(reg(w[1], &regs), reg(w[2], &regs))),
+                "imp" => regs.push(bdd.imp(reg(w[1], &regs), reg(w[2], &regs))),
+                "iff" => regs.push(bdd.iff(reg(w[1], &regs), reg(w[2], &regs))),
+                "xor" => regs.push(bdd.xor(reg(w[1], &regs), reg(w[2], &regs))),
+                "restrict" => regs.push(bdd.restrict(reg(w[1], &regs), Var(w[2].parse().unwrap()), w[3] == "1")),
+                "const" => regs.push(Bdd::constant(w[1] == "1")),
+                _ => {}
+            }
+        }
+        let t = crate::table_string(&bdd);
+        let n = bdd.nodes.len();
+        drop(bdd);
+        pd.store(true, Ordering::SeqCst);
+        (t, n)
+    });
+    let pd2 = producer_done.clone();
+    let rd = relay_done.clone();
+    let relay = std::thread::spawn(move || {
+        let mut relay = Bdd::with_sender_receiver(s2, r1);
+        std::thread::sleep(std::time::Duration::from_micros(delay_us)); // a late consumer
+        loop {
+            let done = pd2.load(Ordering::SeqCst);
+            relay.recv(Term(usize::MAX));
+            if done {
+                break;
+            }
+            std::thread::sleep(std::time::Duration::from_micros(50));
+        }
+        let t = crate::table_string(&relay);
+        drop(relay);
+        rd.store(true, Ordering::SeqCst);
+        t
+    });
+    let mut last = Bdd::with_receiver(r2);
+    loop {
+        let done = relay_done.load(Ordering::SeqCst);
+        last.recv(Term(usize::MAX));
+        if done {
+            break;
+        }
+        std::thread::sleep(std::time::Duration::from_micros(50));
+    }
+    let (pt, pn) = producer.join().unwrap();
+    let rt = relay.join().unwrap();
+    let lt = crate::table_string(&last);
+    writeln!(out, "{} threads cap={} producer_nodes={} relay_equal={} last_equal={}", id, cap, pn, (pt == rt) as u8, (pt == lt) as u8).unwrap();
+}
+#[cfg(not(feature = "frontend"))]
+fn run_stream_threads(_id: &str, _rest: &[String], _lines: &[String], _out: &mut String) {}
+
 pub fn run_case(id: &str, kind: &str, _rest: &[String], lines: &[String], out: &mut String) {
     match kind {
         "NG" => run_ng(id, lines, out),
         "LEAF" => run_leaf(id, lines, out),
         "STREAM" => run_stream(id, lines, out),
+        "STREAMT" => run_stream_threads(id, _rest, lines, out),
         _ => panic!("unknown case kind {}", kind),
     }
 }
